@@ -366,6 +366,42 @@ def _instance_decls(rng, node, lnames, levels, p_layer, p_level):
             _instance_decls(rng, ch, lnames, levels, p_layer, p_level)
 
 
+UNIT_FIXTURES = [{'setUpClass': 'raise:ValueError'},
+                 {'setUpClass': 'raise:KeyError'},
+                 {'tearDownClass': 'raise:OSError'},
+                 {'setUpClass': 'skip'},
+                 {'setUpClass': 'ok', 'tearDownClass': 'ok'}]
+
+
+def add_unit_nodes(rng, spec, n=(1, 2), kinds=('pass',), fixtures=None):
+    """Insert 1-2 classes that are run as a unit (class fixtures that raise
+    or skip: result events without startTest / stopTest) at random positions
+    of the top-level suites; each on a layer of the world or on none.
+    Returns the nodes."""
+    lnames = [ls['name'] for ls in spec.get('layers', [])] + [None]
+    mods = [m for m in spec['modules'] if m['suite']['t'] == 'suite' and
+            not (m.get('fault') or m.get('fault_test_suite') or
+                 m.get('bad_suite'))]
+    out = []
+    if not mods:
+        return out
+    for i in range(rng.randint(*n)):
+        m = rng.choice(mods)
+        node = {'t': 'unit', 'name': 'UnitU%d' % i,
+                'tests': [{'name': 'test_u%d' % j, 'kind': rng.choice(kinds)}
+                          for j in range(rng.randint(1, 2))],
+                'fixture': dict(rng.choice(fixtures or UNIT_FIXTURES))}
+        ln = rng.choice(lnames)
+        if ln is not None:
+            node['layer'] = ln
+        else:
+            node['layer'] = 'UNIT'
+        ch = m['suite']['ch']
+        ch.insert(rng.randint(0, len(ch)), node)
+        out.append(node)
+    return out
+
+
 def all_test_ids(spec):
     import vworld
     return [tid for tid, *_ in vworld.iter_tests(spec)]
